@@ -53,6 +53,7 @@ def run(ctx) -> None:
     r16_2(ctx, N)
     r16_3_state(ctx, N)
     r16_4(ctx, N)
+    r16_5(ctx, N)
 
 
 class Names:
@@ -427,22 +428,80 @@ def r16_3_state(ctx, N) -> None:
 
 
 def r16_4(ctx, N) -> None:
+    from .common import name_value
+    key_fields = {N.key, N.group_key, N.target}
     for short in ("itertools._Grouper", "itertools.GroupBy", "itertools._GroupByState"):
         info = ctx.pkg.cls(short)
         for m in info.methods.values():
-            for c in own_nodes(m.node):
-                if not isinstance(c, ast.Compare):
+            cfg = cfg_of(m)
+
+            def is_key(e, at, depth=0) -> bool:
+                """the expression denotes a user key: a key field, or a local bound to one"""
+                if isinstance(e, ast.Attribute) and e.attr in key_fields:
+                    return True
+                if isinstance(e, ast.Name) and depth < 3 and at is not None and e.id not in m.param_names():
+                    v = name_value(ctx, m, cfg, at, e.id)
+                    return v is not None and is_key(v, at, depth + 1)
+                if isinstance(e, ast.Name) and e.id in m.param_names():
+                    # a constructor / method parameter that is stored into a key field
+                    return any(isinstance(st, ast.Assign) and isinstance(st.value, ast.Name) and st.value.id == e.id
+                               and any(isinstance(t, ast.Attribute) and t.attr in key_fields for t in st.targets)
+                               for st in own_nodes(m.node))
+                return False
+
+            seen = set()
+            for n in cfg.nodes:
+                if n.tag or n.ast is None:
                     continue
-                ctx.count("comparisons")
-                text = norm(c)
-                operands = [c.left] + list(c.comparators)
-                key_names = {N.key, N.group_key, N.target, "target_key", "current_key"}
-                touches_key = any(isinstance(x, (ast.Attribute, ast.Name)) and (getattr(x, "attr", None) in key_names or
-                                                                                  getattr(x, "id", None) in key_names)
-                                  for o in operands for x in ast.walk(o))
-                if touches_key:
-                    ctx.check(all(isinstance(o, (ast.Eq, ast.NotEq)) for o in c.ops), "R16.4", m, c,
-                              "user keys are compared by equality only (like itertools.groupby)")
-                elif any(isinstance(o, (ast.Is, ast.IsNot)) for o in c.ops):
-                    ok = any(norm(o) in ("self", "None") or f".{N.sentinel}" in norm(o) for o in operands)
-                    ctx.check(ok, "R16.4", m, c, "identity tests involve only library objects (self, None, sentinel, groups)")
+                for c in ast.walk(n.ast):
+                    if not isinstance(c, ast.Compare) or id(c) in seen:
+                        continue
+                    seen.add(id(c))
+                    ctx.count("comparisons")
+                    operands = [c.left] + list(c.comparators)
+                    touches_key = any(is_key(o, n) for o in operands)
+                    if touches_key:
+                        ctx.check(all(isinstance(o, (ast.Eq, ast.NotEq)) for o in c.ops), "R16.4", m, c,
+                                  "user keys are compared by equality only (like itertools.groupby)", node=n)
+                    elif any(isinstance(o, (ast.Is, ast.IsNot)) for o in c.ops):
+                        ok = any(norm(o) in ("self", "None") or f".{N.sentinel}" in norm(o) for o in operands)
+                        ctx.check(ok, "R16.4", m, c, "identity tests involve only library objects (self, None, sentinel, groups)",
+                                  node=n)
+
+
+def r16_5(ctx, N) -> None:
+    """Closing a group affects only that group: ``_Grouper.aclose`` touches the shared live-group
+    reference only on the "I am the live group" edge, clears it there, and steps nothing."""
+    ctx.rule("R16.5", "closing a group clears the shared live-group reference iff it is that group; nothing else is touched")
+    info = ctx.pkg.cls("itertools._Grouper")
+    acl = info.methods.get("aclose")
+    if acl is None:
+        ctx.ok("R16.5", "itertools._Grouper", "no aclose: groups cannot be closed individually")
+        return
+    u = _view(ctx, N, f"itertools.{info.name}.aclose") if False else ctx.inlined(acl)
+    cfg = cfg_of(u)
+    me = u.param_names()[0]
+    main = [n for n in cfg.nodes if not n.tag]
+    tests = {}
+    for n in main:
+        if n.kind == "branch" and isinstance(n.ast, ast.Compare) and len(n.ast.ops) == 1 \
+                and isinstance(n.ast.ops[0], (ast.Is, ast.IsNot)) and f".{N.live}" in norm(n.ast) \
+                and any(isinstance(x, ast.Name) and x.id == me for x in (n.ast.left, n.ast.comparators[0])):
+            tests[n] = "t" if isinstance(n.ast.ops[0], ast.Is) else "f"
+    clears = [n for n in main if n.kind == "store" and any(
+        isinstance(t, ast.Attribute) and t.attr == N.live for t in n.info.get("targets", []))]
+    ctx.check(bool(tests) and bool(clears), "R16.5", u, "aclose", "closing tests whether this group is the live one and clears the reference")
+    for c in clears:
+        path = find_path(cfg.entry, lambda x, c=c: x is c, edge_ok=lambda a, lab, b: lab not in ("e", "p") and not (
+            a in tests and lab == tests[a]))
+        ctx.check(path is None, "R16.5", u, c, "the shared live-group reference is cleared only by the live group itself "
+                  "(closing a stale group does not end the current one)", node=c, witness=pretty_path(path))
+        ctx.check(isinstance(c.info.get("value"), ast.Constant) and c.info["value"].value is None, "R16.5", u, c,
+                  "the reference is cleared (set to None)", node=c)
+    for t, lab in tests.items():
+        live_side = [s_ for (l2, s_) in t.succ if l2 == lab]
+        seg = reachable(live_side, edge_ok=lambda a, l3, b: l3 not in ("e", "p"))
+        ctx.check(any(c in seg for c in clears), "R16.5", u, t, "the live group does clear the reference when closed", node=t)
+    touched = [n for n in main if n.kind in ("await", "call") and n.kind != "branch"]
+    ctx.check(not [n for n in touched if n.kind == "await"], "R16.5", u, "aclose",
+              "closing a group advances nothing (no await: the shared cursor and the source are untouched)")
